@@ -144,7 +144,9 @@ int read_amiga(const char *filename, Memory *memory)
         running = 0;
         break;
       default:
-        if (length == 0)
+        // A negative length would seek backwards and read the same hunks
+        // again forever.
+        if (length <= 0)
         {
           fclose(in);
           return -1;
